@@ -29,6 +29,9 @@ type c05Scenario struct {
 	Skip       []string `json:"skip"`
 	MaxServers int      `json:"max_servers"`
 	FailStart  int      `json:"fail_start"` // -1, or the k-th started server fails to start
+	// optional misbehaviour of the (first) client process: exit0 exit1 closeout garbage unknown, once k answers were emitted
+	ClientFault   string `json:"client_fault,omitempty"`
+	ClientFaultAt int    `json:"client_fault_at,omitempty"`
 }
 
 func c05Configs(name string) []configCase {
@@ -172,6 +175,8 @@ type c05Obs struct {
 	Verdicts  []gateVerdict
 	NumRecv   int
 	NumServer int
+	// server processes still alive at the very moment run() returned
+	LiveAtReturn []int
 }
 
 func c05Flags(sc c05Scenario) *Flags {
@@ -249,6 +254,14 @@ func c05RunOne(t *testing.T, sc c05Scenario, prefix []int, expect []gate.PointRe
 		w.answer = func(kind string, j int, req *conformancev1.ClientCompatRequest) *conformancev1.ClientCompatResponse {
 			return psPassResponse(req)
 		}
+		if sc.ClientFault != "" {
+			w.clientScript = func(k int, kind string) fakeScript {
+				if k == 0 {
+					return fakeScript{Fault: sc.ClientFault, FaultAt: sc.ClientFaultAt}
+				}
+				return fakeScript{Fault: "none"}
+			}
+		}
 		remove := w.install()
 		defer remove()
 		var mu sync.Mutex
@@ -270,8 +283,12 @@ func c05RunOne(t *testing.T, sc c05Scenario, prefix []int, expect []gate.PointRe
 				skipT = parsePatterns(sc.Skip)
 			}
 			results, err := run(c05Configs(sc.Cfg), &testTrie{}, &testTrie{}, runT, skipT, suites, logP, errP, c05Flags(sc))
+			w.mu.Lock()
+			liveNow := w.liveLocked()
+			w.mu.Unlock()
 			mu.Lock()
 			obs.Returned = true
+			obs.LiveAtReturn = liveNow
 			obs.Results = results
 			if err != nil {
 				obs.RunErr = err.Error()
@@ -389,6 +406,9 @@ func c05Judge(sc c05Scenario, obs *c05Obs, x *gate.Exec) []gateVerdict {
 		case e.count > 1:
 			add("dispatched-twice", "permutation %q was handed to a client %d times", n, e.count)
 		default:
+			if sc.ClientFault != "" {
+				continue // the client died: the permutation could not run (C04 judges how that is reported)
+			}
 			o, ok := obs.Results.outcomes[n]
 			if !(ok && o.setupError && o.actualFailure != nil) {
 				add("selected-not-dispatched", "selected permutation %q never reached a client and is not recorded as a setup failure (outcome present=%v) run error=%q", n, ok, obs.RunErr)
@@ -396,6 +416,9 @@ func c05Judge(sc c05Scenario, obs *c05Obs, x *gate.Exec) []gateVerdict {
 				add("setup-failure-without-fault", "permutation %q recorded as setup failure although no fault was scripted: %v", n, o.actualFailure)
 			}
 		}
+	}
+	if len(obs.LiveAtReturn) > 0 {
+		add("server-alive-when-run-returns", "run() returned while server process(es) %v were still alive (run error %q)", obs.LiveAtReturn, obs.RunErr)
 	}
 	if w.maxLive > sc.MaxServers {
 		add("too-many-servers", "%d server processes were alive at once with --max-servers=%d", w.maxLive, sc.MaxServers)
@@ -457,12 +480,38 @@ func c05Scenarios(thorough bool) []c05Scenario {
 						continue // no gRPC reference peers take part
 					}
 					for _, ms := range maxes {
+						if !thorough && mode != "both" && ms > 1 && !(cfg == "A2" && su == "one") {
+							continue // concurrent batches with the gRPC peers on larger suites: thorough tier
+						}
 						out = append(out, c05Scenario{Cfg: cfg, Suites: su, Mode: mode, Run: f.run, Skip: f.skip, MaxServers: ms, FailStart: -1})
+					}
+				}
+				// the client process misbehaves while batches are in flight
+				if mode == "both" || thorough {
+					for _, cf := range []string{"exit0", "exit1", "closeout", "unknown"} {
+						for k := 0; k <= 2; k++ {
+							if !thorough && (su != "one" || (cf == "unknown" && k > 0)) {
+								continue
+							}
+							if !thorough && cfg == "A3" && (k > 1 || cf != "exit0") {
+								continue
+							}
+							for _, ms := range []int{1, 2} {
+								if cfg == "A3" && ms == 1 && !thorough {
+									continue // three instances matter with two slots: a batch is still waiting for one when the client dies
+								}
+								out = append(out, c05Scenario{Cfg: cfg, Suites: su, Mode: mode, MaxServers: ms, FailStart: -1, ClientFault: cf, ClientFaultAt: k})
+							}
+						}
 					}
 				}
 				// a server that cannot be started
 				for k := 0; k < 2; k++ {
-					out = append(out, c05Scenario{Cfg: cfg, Suites: su, Mode: mode, MaxServers: 2, FailStart: k})
+					ms := 2
+					if !thorough && mode != "both" && !(cfg == "A2" && su == "one") {
+						ms = 1
+					}
+					out = append(out, c05Scenario{Cfg: cfg, Suites: su, Mode: mode, MaxServers: ms, FailStart: k})
 				}
 			}
 		}
@@ -478,7 +527,21 @@ func TestVerifC05(t *testing.T) {
 	if rep.Thorough() {
 		bound = 2
 	}
-	gateExplore(t, r, c05Scenarios(rep.Thorough()), bound, func(sc c05Scenario, prefix []int, expect []gate.PointRec) gateRun {
+	// when the client dies with requests of several batches outstanding, the runner fails them
+	// in Go map iteration order (client_runner.go, consumeOutput's clean-up)
+	unowned := func(sc c05Scenario) bool { return sc.ClientFault != "" }
+	if !rep.Thorough() {
+		// three server instances on two slots with a dying client is the largest space:
+		// quick explores it without preemptions (all orders of peer events), thorough with the bound
+		gateBoundOf = func(sc any) (int, bool) {
+			if s, ok := sc.(c05Scenario); ok && s.ClientFault != "" && s.Cfg == "A3" {
+				return 0, true
+			}
+			return 0, false
+		}
+		r.Note("scenarios with cfg=A3 and a client fault are explored with preemption bound 0 in the quick tier")
+	}
+	gateExploreOpt(t, r, c05Scenarios(rep.Thorough()), bound, unowned, func(sc c05Scenario, prefix []int, expect []gate.PointRec) gateRun {
 		x, obs, leak := c05RunOne(t, sc, prefix, expect)
 		return gateRun{x: x, outcome: c05Outcome(sc, obs), verdicts: obs.Verdicts, leak: leak}
 	})
